@@ -1,14 +1,19 @@
-(* C04 — BMS reading.  Property theorems only: each closed by [exact] from Proofs/BMSProofs.v / BMSDenoteProofs.v,
-   table obligations and concrete witnesses by vm_compute.
-   Whole file: C04_bms_read_denotes (hits and holds = the objects the format assigns, lane by lane in time order, at the
-   integrated time, whatever the order of the lines) on the decidable domain read_theorem_domain, whose clause (i)
-   -- the reader's line loop collects exactly the format's object list -- is evaluated by the runner on every generated
-   text and NOT proved from wf_bms_lines (the text-level parsing refinement is open).  Without the grid guard the
-   statement is false: C04_read_denotes_refuted_tempo_grid (known finding tempo-offgrid-resnap).
+(* C04 — BMS reading.  Property theorems only: each closed by [exact] from Proofs/BMSProofs.v / BMSDenoteProofs.v /
+   BMSParseProofs.v, table obligations and concrete witnesses by vm_compute.
+   Whole file, TEXT-LEVEL domain: C04_bms_read_text -- for every layout satisfying the layout obligations, every MAX_KEYS
+   and every text with wf_bms_lines (the property's quantifier, the predicate the runner evaluates as wf) and read_guards
+   (tempo objects pairwise on the 1/96 grid, a tempo object at the origin listed first), lines in any order and overlaid:
+   whenever BMSMap.read returns a chart it is the chart bms_denote assigns to the text, rows up to order (chart_denotes).
+   Its parts: C04_text_in_domain (the parsing refinement: the reader's line loop collects exactly the format's header
+   table and object list, so the text lies in read_theorem_domain), C04_lanes_order (layout order = columns ascending, as
+   multisets), C04_bms_read_denotes (per lane, in time order).  Without the grid guard the statement is false:
+   C04_read_denotes_refuted_tempo_grid (known finding tempo-offgrid-resnap).
    C04_bms_read_header: header fields retained, whole file, proved outright. *)
 From Coq Require Import ZArith QArith Qround Qabs List Bool.
 From RV Require Import Base.PyNum Timing.Snapper Timing.Snap Timing.TimingMap Timing.Reseat Timing.Integrate
-  Formats.BMSText Formats.BMS Formats.BMSSpec Timing.Domain Generated.Tables Proofs.SnapperProofs Proofs.BMSProofs Proofs.BMSDenoteProofs.
+  Formats.BMSText Formats.BMS Formats.BMSSpec Timing.Domain Generated.Tables Proofs.SnapperProofs Proofs.BMSProofs Proofs.BMSDenoteProofs
+  Proofs.BMSParseProofs Proofs.BMSReadReturnsProofs.
+From Coq Require Import Sorting.Permutation.
 Import ListNotations.
 Open Scope Z_scope.
 
@@ -102,6 +107,63 @@ Theorem C04_tempo_script : forall (bpm0 : Q) (tempos : list bcs),
   override_sort (origin_bcs bpm0 :: tempos) = script_of bpm0 tempos.
 Proof. exact reader_script_is_script. Qed.
 
+(* ---- the text-level theorems (Proofs/BMSParseProofs.v) ----
+   C04_text_in_domain: the parsing refinement.  On every text of the format's domain the reader's line loop (classifier,
+   header dict, _read_file_header, the pair loop of _read_notes) collects exactly the header table and the object list the
+   format assigns to the text, the lane enumeration by columns agrees with the layout's, and the tempo script lies in C10's
+   domain: wf_bms_lines /\ read_guards (both evaluated on the TEXT alone) imply read_theorem_domain. *)
+Theorem C04_text_in_domain : forall (lay : layout) (mk : Z) (lines : list text),
+  layout_ok mk lay = true -> wf_bms_lines lay lines = true -> read_guards tbl lines = true ->
+  read_theorem_domain tbl lay mk lines = true.
+Proof. exact (bms_wf_in_domain tbl). Qed.
+(* the lanes of a layout in layout order and the columns 0..MAX_KEYS-1 ascending hold the same hits and holds *)
+Theorem C04_lanes_order : forall lnobj lay mk objs H0 L0, layout_facts mk lay ->
+  lanes_denote lnobj lay objs (lanes lay) = Some (H0, L0) ->
+  exists H L, lanes_denote lnobj lay objs (map Z.of_nat (seq 0 (Z.to_nat mk))) = Some (H, L)
+              /\ Permutation H0 H /\ Permutation L0 L.
+Proof. exact lanes_layout_vs_columns. Qed.
+(* C04_bms_read_text: bms_read text = bms_denote text, up to row order, on the text-level domain.  chart_denotes
+   (Formats/BMSSpec.v): the hits and the holds are, as multisets, the denoted ones (column and sample exactly, time and
+   length by value); title / artist / level / LNOBJ / extended-tempo table / WAV table are the header's; every other
+   header except #BPM, #BPMxx, #WAVxx is in misc. *)
+Theorem C04_bms_read_text : forall (lay : layout) (mk : Z) (lines : list text) (c : bms_chart),
+  layout_ok mk lay = true -> wf_bms_lines lay lines = true -> read_guards tbl lines = true ->
+  bms_read tbl lay mk lines = Some c ->
+  exists d, bms_denote lay lines = Some d /\ chart_denotes c d.
+Proof. exact (bms_read_wf_denotes tbl C04_table_ok). Qed.
+(* the same under the clauses of wf_bms_lines the proof uses (text_dom: no 192-subdivision cap, no ASCII / non-empty-value
+   clauses) -- the form composed with the writer in C05 *)
+Theorem C04_bms_read_text_dom : forall (lay : layout) (mk : Z) (lines : list text) (c : bms_chart),
+  layout_ok mk lay = true -> text_dom lay lines -> read_guards tbl lines = true ->
+  bms_read tbl lay mk lines = Some c ->
+  exists d, bms_denote lay lines = Some d /\ chart_denotes c d.
+Proof. exact (bms_read_text_denotes tbl C04_table_ok). Qed.
+Theorem C04_wf_text_dom : forall lay lines, wf_bms_lines lay lines = true -> text_dom lay lines.
+Proof. exact wf_text_dom. Qed.
+
+(* ---- when the read returns, and the initial tempo (Proofs/BMSReadReturnsProofs.v).
+   C04_bms_read_returns: on the text-level domain every step of the read succeeds except possibly TimingMap.reseat() (C11):
+   with tm = from_bpm_changes_snap(0, script of the text), the read returns exactly when reseat returns, and the chart's tempo
+   list is reseat's result.
+   C04_bms_read_initial_tempo: under reseat_textb (decidable on the text: the script, as reseat sees it, lies in C11's domain
+   wf_unseated and inside C11's guard no_extend, and no tempo object lies strictly inside measure 0) the read RETURNS and the
+   chart's tempo list starts at 0 ms with the initial tempo the text denotes (#BPM, or the tempo object at measure 0
+   position 0). ---- *)
+Theorem C04_bms_read_returns : forall (lay : layout) (mk : Z) (lines : list text),
+  layout_ok mk lay = true -> wf_bms_lines lay lines = true -> read_guards tbl lines = true ->
+  exists bv bpm0 tempos tm,
+    hlookup S_BPM (headers_of lines) = Some bv /\ parse_decimal bv = Some bpm0
+    /\ tempo_objs (table_of S_BPM (headers_of lines)) (flat_map objs_of_line lines) = Some tempos
+    /\ from_bcs 0 (script_of bpm0 tempos) = Some tm
+    /\ (forall bp, tm_reseat tbl tm = Some bp -> exists c, bms_read tbl lay mk lines = Some c /\ c_bpms c = bp)
+    /\ (tm_reseat tbl tm = None -> bms_read tbl lay mk lines = None).
+Proof. exact (bms_read_wf_returns tbl C04_table_ok). Qed.
+Theorem C04_bms_read_initial_tempo : forall (lay : layout) (mk : Z) (lines : list text),
+  layout_ok mk lay = true -> wf_bms_lines lay lines = true -> read_guards tbl lines = true -> reseat_textb tbl lines = true ->
+  exists c d b bs, bms_read tbl lay mk lines = Some c /\ bms_denote lay lines = Some d
+    /\ c_bpms c = b :: bs /\ (bo_off b == 0)%Q /\ (bo_bpm b == d_bpm0 d)%Q.
+Proof. exact (bms_read_wf_initial_tempo tbl C04_table_ok). Qed.
+
 (* ---- the whole-file statement is refuted without the grid guard: a tempo object whose distance to the previous one is off the 1/96 grid (subdivision 99) moves later notes ---- *)
 Definition w_tempo : list text := [(tx[L[35;66;80;77;32;49;50;48]])%Z; (tx[L[35;48;48;48;48;51;58;48;48;55;56];R 48 194])%Z; (tx[L[35;48;48;49;49;49;58;48;49]])%Z].
 Theorem C04_read_denotes_refuted_tempo_grid :
@@ -132,6 +194,21 @@ Example C04_nonvacuous :
   wf_bms_lines lay_BMS w_good && read_guards tbl w_good && read_theorem_domain tbl lay_BMS Tables.bms.max_keys w_good
   && match bms_read tbl lay_BMS Tables.bms.max_keys w_good with
      | Some c => c04_specb 0 lay_BMS w_good c && (length (c_hits c) =? 3)%nat && (length (c_holds c) =? 1)%nat
+     | None => false
+     end = true.
+Proof. vm_compute. reflexivity. Qed.
+
+(* ---- non-vacuity of the TEXT-LEVEL domain on a non-BME layout (PMS): lines shuffled out of time order, two overlaid
+   lines for measure 0 channel 11, an LNOBJ pair across measures given tail first, a channel-03 and a channel-08 tempo
+   object inside / on measures: the text satisfies wf_bms_lines and read_guards, the read returns and the oracle accepts ---- *)
+Definition lay_PMS : layout := Tables.bms.layout_PMS.
+Definition w_mixed : list text := [(tx[L[35;48;48;50;49;49;58;48;49]])%Z; (tx[L[35;87;65;86;48;49;32;97;46;119;97;118]])%Z; (tx[L[35;48;48;49;49;51;58;48;48;90;90]])%Z; (tx[L[35;48;48;50;48;56;58;48;49;48;48]])%Z; (tx[L[35;84;73;84;76;69;32;120;32;121]])%Z; (tx[L[35;66;80;77;48;49;32;49;51;51;46;53]])%Z; (tx[L[35;48;48;48;49;49;58;48;48;48;48;48;49]])%Z; (tx[L[35;76;78;79;66;74;32;90;90]])%Z; (tx[L[35;48;48;49;48;51;58;48;48;55;56]])%Z; (tx[L[35;66;80;77;32;49;50;48]])%Z; (tx[L[35;48;48;48;49;51;58;48;49]])%Z; (tx[L[35;48;48;48;49;49;58;48;49]])%Z; (tx[L[35;80;76;65;89;76;69;86;69;76;32;55]])%Z; (tx[L[35;48;48;49;50;50;58;48;48;48;50]])%Z].
+Example C04_text_domain_nonvacuous :
+  layout_ok Tables.bms.max_keys lay_PMS && wf_bms_lines lay_PMS w_mixed && read_guards tbl w_mixed && reseat_textb tbl w_mixed
+  && reseat_textb tbl w_good && reseat_textb tbl w_order
+  && match bms_read tbl lay_PMS Tables.bms.max_keys w_mixed with
+     | Some c => c04_specb 0 lay_PMS w_mixed c && (length (c_hits c) =? 4)%nat
+                 && match c_holds c with [h] => (ho_col h =? 2) && Qeq_bool (ho_off h) 0 && Qeq_bool (ho_len h) 3000 | _ => false end
      | None => false
      end = true.
 Proof. vm_compute. reflexivity. Qed.
